@@ -51,6 +51,10 @@ def fd_mask(cls, case, pts, h):
             & (h > 1e5 * eps * (abs(lo) + (up - lo)))
     if cls == "LogSinh":
         return pts["w"] * (1 - 3e-3) > 1e-4 * 0.5
+    if cls == "Manly" and "t" in pts:
+        # below lam*x/xmax = -13.8 forward is flat to within rounding: a
+        # finite difference cannot resolve exp(t) (positivity still judged)
+        return pts["t"] >= -13.8
     return np.ones(len(x), dtype=bool)
 
 
@@ -119,7 +123,7 @@ def noise_model(cls, t, case, x, y):
 
 def derivative_check(t, case, setting, labels):
     cls = case["cls"]
-    pts = tc.points(t, case, setting)
+    pts = tc.points(t, case, setting, manly_low=-600.)
     labels.extend(pts["lab"])
     x = pts["x"]
     if cls == "YeoJohnson":
